@@ -194,7 +194,7 @@ theorem eval_static (p : SKProvider) (hp : ProviderOK p) (env1 env2 : EvalEnv) (
     injection h with h; injection h with _ h2
     rw [← h2]
     exact CtxInv.setLocal hp (i1 _ _ hx) name v hk'.1
-  case case64 | case65 | case66 | case67 | case68 | case69 | case70 | case71 | case72 =>
+  case case65 | case66 | case67 | case68 | case69 | case70 | case71 | case72 | case73 =>
     intros
     rename_i hk hinv
     obtain ⟨n, hf, hka, hkn⟩ := call_known_inv p _ _ hk
@@ -206,7 +206,14 @@ theorem eval_static (p : SKProvider) (hp : ProviderOK p) (env1 env2 : EvalEnv) (
       first
         | (simp_all; done)
         | exact call_static p env1 env2 ag _ n _ hkn hinv (by apply_assumption <;> assumption))
-  case case55 => intros; rename_i hk hinv; simp only [staticallyKnown, staticallyKnownAll, Bool.and_eq_true] at hk; simp_all [eval, evalArgs, evalBlock]; intro v c' h; split at h; (· cases h); (· have := map_ok_snd _ _ _ _ _ h; subst this; simp_all)
+  case case56 =>
+    intros; rename_i hk hinv; simp only [staticallyKnown, staticallyKnownAll, Bool.and_eq_true] at hk; simp_all [eval, evalArgs, evalBlock]
+    intro v c' h
+    split at h
+    · cases h
+    · split at h
+      · cases h
+      · have := map_ok_snd _ _ _ _ _ h; subst this; simp_all
   all_goals (intros; try (rename_i hk hinv; simp only [staticallyKnown, staticallyKnownAll, Bool.and_eq_true] at hk; first
     | (simp_all [eval, evalArgs, evalBlock]; done)
     | (simp_all [eval, evalArgs, evalBlock, map_pair_ok]; done)
@@ -390,12 +397,14 @@ theorem eval_static_le (p : SKProvider) (hp : ProviderOK p) (env1 env2 : EvalEnv
            · exact hk)
     rw [ag.var level path hq v' hv (by intro e; subst e; simp [isUnk_unknown] at hne)]
     exact ⟨rfl, hinv⟩
-  case case54 => simp_all [eval, evalArgs, evalBlock, map_pair_ok, isUnk_of_not_propagate, isUnk_failed, isUnk_void, isUnk_int, isUnk_str, isUnk_bool, isUnk_builtin, isUnk_asmBuiltin, isUnk_fn, isUnk_unknown]; split at hev <;> cases hev
-  case case55 =>
+  case case55 => simp_all [eval, evalArgs, evalBlock, map_pair_ok, isUnk_of_not_propagate, isUnk_failed, isUnk_void, isUnk_int, isUnk_str, isUnk_bool, isUnk_builtin, isUnk_asmBuiltin, isUnk_fn, isUnk_unknown]; split at hev <;> cases hev
+  case case56 =>
     simp_all [eval, evalArgs, evalBlock, map_pair_ok, isUnk_of_not_propagate, isUnk_failed, isUnk_void, isUnk_int, isUnk_str, isUnk_bool, isUnk_builtin, isUnk_asmBuiltin, isUnk_fn, isUnk_unknown]
     split at hev
     · cases hev
-    · have := map_ok_snd _ _ _ _ _ hev; subst this; simp_all
+    · split at hev
+      · cases hev
+      · have := map_ok_snd _ _ _ _ _ hev; subst this; simp_all
   case case14 =>
     rename_i locals r name v locals1 hx hnp ih1
     have hk' : staticallyKnown p (.var 0 [name]) = true ∧ staticallyKnown p r = true := by
@@ -406,7 +415,7 @@ theorem eval_static_le (p : SKProvider) (hp : ProviderOK p) (env1 env2 : EvalEnv
     injection hev with hev; injection hev with h1 h2
     subst h1; subst h2
     exact ⟨rfl, CtxInv.setLocal hp i1 name v hk'.1⟩
-  case case65 | case67 | case68 | case69 | case70 =>
+  case case66 | case68 | case69 | case70 | case71 =>
     obtain ⟨n, hf, hka, hkn⟩ := call_known_inv p _ _ (by simpa [staticallyKnown] using hk)
     subst hf
     obtain ⟨fv, h1, hcase⟩ := callee_evalU p env1 env2 ag.callee _ n hkn hinv
